@@ -879,6 +879,7 @@ class TestResult(unittest.TestResult):
         self._stderr_buffer = None
         self._original_stdout = sys.stdout
         self._original_stderr = sys.stderr
+        self._std_streams_buffered = False
 
     def testSetUp(self):
         """A layer may define a setup method to be called before each
@@ -923,10 +924,15 @@ class TestResult(unittest.TestResult):
                 self._stderr_buffer = self._makeBufferedStdStream()
             sys.stdout = self._stdout_buffer
             sys.stderr = self._stderr_buffer
+            self._std_streams_buffered = True
 
     def _restoreStdStreams(self):
         """Restore the buffered standard streams and return any contents."""
-        if self.options.buffer:
+        if self.options.buffer and self._std_streams_buffered:
+            # A test can report several results (e.g. an error in the test
+            # and another one in ``tearDown``, or several failing subtests):
+            # only the first report finds the buffered streams installed.
+            self._std_streams_buffered = False
             stdout = sys.stdout.getvalue()
             stderr = sys.stderr.getvalue()
             sys.stdout = self._original_stdout
